@@ -125,7 +125,7 @@ func cloneCP(c *state.Checkpoint) *state.Checkpoint {
 // PrevCheckpoint returns the last completed checkpoint at or below b.
 func (n *Net) PrevCheckpoint(b *B) *state.Checkpoint {
 	for p := b; p != nil; p = p.Parent {
-		if p.Height%n.E == 0 {
+		if p.Height%n.E == 0 && p.CP != nil {
 			return p.CP
 		}
 	}
@@ -135,7 +135,7 @@ func (n *Net) PrevCheckpoint(b *B) *state.Checkpoint {
 // CheckpointBlock returns the ancestor-or-self of b at the last epoch boundary.
 func (n *Net) CheckpointBlock(b *B) *B {
 	for p := b; p != nil; p = p.Parent {
-		if p.Height%n.E == 0 {
+		if p.Height%n.E == 0 && p.CP != nil {
 			return p
 		}
 	}
